@@ -449,6 +449,54 @@ def variable_output_profile(db: ProgramDB, predicate: bool = True):
             return None
         return dict(call_hook=call_hook)
     cfg, res = truth_profile(db, m, envs, make_init, make_hooks)
+    # the decision 'is this row handed on' may sit one level up: the helper hands every row on with its truth, and the evaluation
+    # method that asked (Variable._evaluate__) keeps or drops it according to ITS OWN request.  Compose the two: a row counts as
+    # emitted if the helper emits it and the guard of the caller's yield holds for (request, truth of the row).
+    from ..boolexpr import guards_of, eval_bool
+    var = db.cls("Variable")
+    ev = var.methods.get("_evaluate__")
+    chain = set()
+    todo = [m.name]
+    while todo:                                   # the methods of Variable through which the helper's rows travel upwards
+        nm = todo.pop()
+        if nm in chain:
+            continue
+        chain.add(nm)
+        for k in var.methods.values():
+            if k.cls is var and k.name not in chain and any(call_attr(c) == nm and isinstance(c.func.value, ast.Name) and c.func.value.id == "self" for c in own_calls(k)):
+                todo.append(k.name)
+    caller_guard = None
+    if ev is not None:
+        for loop in [l for l in own_nodes(ev.node) if isinstance(l, ast.For)]:
+            if isinstance(loop.iter, ast.Call) and call_attr(loop.iter) in chain - {"_evaluate__"}:
+                ys = [y for st_ in loop.body for y in ast.walk(st_) if isinstance(y, ast.Yield)]
+                if len(ys) == 1:
+                    st_ = ys[0]
+                    while not isinstance(st_, ast.stmt):
+                        st_ = db.parent(st_)
+                    caller_guard = guards_of(st_, loop.body) or []
+    if caller_guard:
+        ywf_param = "yield_when_false"
+
+        def keep(env, is_false):
+            def atom(e):
+                u = unparse(e)
+                if u == ywf_param:
+                    return "Y"
+                if u == "self._is_false_":
+                    return "F"
+                return None
+            return all(bool(eval_bool(t, atom, {"Y": env["ywf"], "F": is_false})) == pol for t, pol in caller_guard)
+        res2 = {}
+        for k, reached in res.items():
+            env = dict(k)
+            kept = []
+            for n, st in reached:
+                f = truth(st.get("self._is_false_"))
+                if f is None or keep(env, f):
+                    kept.append((n, st))
+            res2[k] = kept
+        res = res2
     return m, res
 
 
